@@ -133,7 +133,7 @@ class ParallelInfo(Generic[CombinatorialClassType, CombinatorialObjectType]):
         for eq_par, eq_chi in lis:
             parent, rule = self._get_class_and_rule(eq_par, eq_chi, rule_dict)
             assert not parent.is_empty()
-            if parent.is_atom():
+            if parent.is_atom() and not isinstance(rule, Rule):
                 sz = next(
                     parent.objects_of_size(parent.minimum_size_of_object())
                 ).size()
